@@ -152,6 +152,34 @@ static void mul_case(int k, uint32_t size, unsigned dal, unsigned sal, rng_t *r,
 	rep_case_done(size > 0, 0, 1);
 }
 
+/* the same buffer several times in one operand table (the definition "to_j ^= from for every j" / "to ^= from_j for every j" is
+ * order independent): every count up to 24 with one to three repeated entries at every pair of positions within a group of 8 */
+static void alias_case(int k, uint32_t size, uint32_t cnt, rng_t *r)
+{
+	if (!rep_case("kernel=%s size=%u count=%u repeated operands", kname[k], size, cnt)) return;
+	uint8_t *buf[24], *b0[24], *one = ar_alloc(size, (unsigned)(size & 7), AR_KERNEL, 0), *one0 = malloc(size + 1), *exp = malloc(size + 1);
+	void *tab[24]; unsigned mult[24]; memset(mult, 0, sizeof mult);
+	for (uint32_t j = 0; j < cnt; j++) { buf[j] = ar_alloc(size, rng_below(r, 8), AR_KERNEL, (long)j + 1); fill(r, buf[j], size, 0); b0[j] = malloc(size + 1); memcpy(b0[j], buf[j], size); tab[j] = buf[j]; }
+	fill(r, one, size, 0); memcpy(one0, one, size);
+	unsigned nrep = 1 + rng_below(r, 3);
+	for (unsigned q = 0; q < nrep; q++) { uint32_t a = rng_below(r, cnt), b = rng_below(r, cnt); tab[b] = tab[a]; }
+	for (uint32_t j = 0; j < cnt; j++) for (uint32_t x = 0; x < cnt; x++) if (tab[j] == buf[x]) mult[x]++;
+	if (k == K_FROM) {
+		of_add_from_multiple_symbols(one, (const void **)tab, cnt, size);
+		memcpy(exp, one0, size);
+		for (uint32_t x = 0; x < cnt; x++) if (mult[x] & 1) for (uint32_t i = 0; i < size; i++) exp[i] ^= b0[x][i];
+		if (memcmp(one, exp, size)) bad(k, "wrong", "size=%u count=%u with repeated sources", size, cnt);
+	} else {
+		ar_ro(one);
+		of_add_to_multiple_symbols(tab, one, cnt, size);
+		for (uint32_t x = 0; x < cnt; x++) { for (uint32_t i = 0; i < size; i++) exp[i] = (uint8_t)(b0[x][i] ^ ((mult[x] & 1) ? one0[i] : 0)); if (memcmp(buf[x], exp, size)) { bad(k, "wrong", "size=%u count=%u: destination %u appears %u time(s) in the table", size, cnt, x, mult[x]); break; } }
+	}
+	for (uint32_t j = 0; j < cnt; j++) { if (ar_check(buf[j])) bad(k, "oob", "operand %u damaged", j); ar_free(buf[j]); free(b0[j]); }
+	if (ar_check(one)) bad(k, "oob", "single operand damaged"); ar_free(one); free(one0); free(exp);
+	rep_count("kernel_calls", 1); rep_count("calls_with_repeated_operands", 1);
+	rep_case_done(1, 0, 1);
+}
+
 /* operand count times symbol size on and next to 2^32 (the operands alias four buffers: 65536 x 64 KiB is 4 GiB of XOR work but
  * 256 KiB of memory). An even number of copies of the same buffer cancels, so the expected result is computed from the parity. */
 static void wrap_case(int k, uint32_t cnt, uint32_t size, rng_t *r)
@@ -161,7 +189,7 @@ static void wrap_case(int k, uint32_t cnt, uint32_t size, rng_t *r)
 	for (int q = 0; q < 4; q++) { buf[q] = ar_alloc(size, (unsigned)q, AR_KERNEL, q + 1); fill(r, buf[q], size, 0); }
 	fill(r, one, size, 0); memcpy(one0, one, size);
 	void **tab = malloc((size_t)cnt * sizeof(void *)); uint32_t par[4] = { 0, 0, 0, 0 };
-	for (uint32_t j = 0; j < cnt; j++) { unsigned q = (j * 7 + j / 5) & 3; if (k == K_TO) q = j & 3; tab[j] = buf[q]; par[q]++; }
+	for (uint32_t j = 0; j < cnt; j++) { unsigned q = (j * 7 + j / 5 + (j >> 9)) & 3; tab[j] = buf[q]; par[q]++; }      /* irregular: a buffer appears 0..4 times within a group of 8 */
 	if (k == K_FROM) {
 		for (int q = 0; q < 4; q++) ar_ro(buf[q]);
 		of_add_from_multiple_symbols(one, (const void **)tab, cnt, size);
@@ -265,6 +293,13 @@ int p_c13(void)
 			rng_t r = rng_make(g_run.seed, 1345 + (uint64_t)k, w);
 			wrap_case(k, wp[w][0], wp[w][1], &r);
 		}
+	}
+	for (int k = K_FROM; k <= K_TO; k++, unit++) {
+		rep_unit(unit);
+		if (!rep_unit_mine(unit)) continue;
+		rng_t r = rng_make(g_run.seed, 1346 + (uint64_t)k, 0);
+		static const uint32_t as[] = { 1, 7, 8, 9, 16, 21, 64, 100 };
+		for (uint32_t cnt = 2; cnt <= 24; cnt++) for (unsigned si = 0; si < 8; si++) for (int rep = 0; rep < (g_run.thorough ? 12 : 3); rep++) alias_case(k, as[si], cnt, &r);
 	}
 	rep_unit(unit);
 	if (rep_unit_mine(unit)) {
